@@ -290,7 +290,23 @@ func fileValue(ctx context.Context, decoder rel.Tuple, filename string) (rel.Exp
 	return bytesValue(ctx, filename, bytes)
 }
 
+type importChainKeyType int
+
+// importChainKey holds the files whose compilation led to the current one.
+const importChainKey importChainKeyType = iota
+
 func bytesValue(ctx context.Context, filename string, data []byte) (rel.Expr, error) {
+	if filename != NoPath {
+		// A file that is (transitively) importing itself would wait forever on
+		// its own in-flight entry in the import cache: report the cycle instead.
+		chain, _ := ctx.Value(importChainKey).([]string)
+		for _, f := range chain {
+			if f == filename {
+				return nil, fmt.Errorf("import cycle: %s", strings.Join(append(chain, filename), " -> "))
+			}
+		}
+		ctx = context.WithValue(ctx, importChainKey, append(chain[:len(chain):len(chain)], filename))
+	}
 	compile := func() (rel.Expr, error) {
 		return Compile(ctx, filename, string(data))
 	}
